@@ -455,7 +455,7 @@ class RoutingMonitor(Monitor):
         want = ROUTING_TABLE.get(key)
         h = pdu_hdr(pdu)
         self.cells.add((key, h[0], h[1], h[2], h[3][1]))
-        w.probe("C20.routed")
+        w.probe(f"rc:{key}:dir{h[0]}:mode{h[1]}:crc{h[2]}:idw{h[3][1]}")
         if want is not None and hk != want:
             w.violate("C20.routing_table", f"{key} -> {hk} want {want}", "")
 
@@ -475,6 +475,26 @@ class RoutingMonitor(Monitor):
 
     def on_inactive_ack(self, w, eof, ack) -> None:
         w.probe("C20.inactive_ack")
+        # bad-status fault: a shell that passes ACTIVE must be refused
+        from cfdppy.handler.dest import acknowledge_inactive_eof_pdu
+        from spacepackets.cfdp.pdu import TransactionStatus
+        import copy as _copy
+
+        try:
+            acknowledge_inactive_eof_pdu(_copy.deepcopy(eof), TransactionStatus.ACTIVE)
+            w.violate("C20.inactive_ack_active_refused", "no exception", "")
+        except ValueError:
+            w.probe("C20.active_status_refused")
+        except Exception as e:  # noqa: BLE001
+            w.violate("C20.inactive_ack_active_refused", type(e).__name__, "")
+        for st in (TransactionStatus.UNDEFINED, TransactionStatus.UNRECOGNIZED):
+            try:
+                a2 = acknowledge_inactive_eof_pdu(_copy.deepcopy(eof), st)
+                i2 = pdu_info(a2)
+                if i2[1] != 4 or i2[2] != int(eof.condition_code) or i2[3] != int(st) or int(a2.pdu_header.direction) != 1:
+                    w.violate("C20.inactive_ack", f"status={int(st)} {i2}", "")
+            except Exception as e:  # noqa: BLE001
+                w.violate("C20.inactive_ack", f"status={int(st)} raises {type(e).__name__}", "")
         inf = pdu_info(ack)
         if inf[1] != 4 or inf[2] != int(eof.condition_code) or inf[3] != 2 or int(ack.pdu_header.direction) != 1:
             w.violate("C20.inactive_ack", f"{inf} dir={int(ack.pdu_header.direction)}", "")
